@@ -156,6 +156,15 @@ C["C09"]["harnesses"] = [h for h in C["C09"]["harnesses"] if h["fn"] != "ZZPicke
     H("ZZPickerRichSequential1", "torrent", "rich initial state, sequential mode, 1 event", None, T(40, 3600, 16, 7, flags=["-nospawn"]), replay="model"),
 ]
 
+C["C13"]["harnesses"] += [
+    H("ZZMetadataSizeCap", "torrent", "magnet torrent, extension handshake with an arbitrary 64-bit announced metadata size (maximum configured to 3 blocks): a fetch starts only for a positive size within the maximum from a peer offering ut_metadata; buffer == announced size", T(45, 900, flags=["-nospawn"]), T(45, 900, flags=["-nospawn"]), replay="model"),
+]
+C["C13"]["assumptions"] += ["torrent fixture (real newTorrent/startPeer, recorders for the peer writer)", "the adopt-only-if-hash-matches step and the magnet text round trip are not covered"]
+C["C15"]["harnesses"] += [
+    H("ZZAnnouncerEvents", "internal/announcer", "real PeriodicalAnnouncer.Run + announce goroutines against a tracker whose two replies are arbitrary (ok with any 32-bit interval/min-interval in seconds incl. zero and negative, failure with any retry-in, undecodable), completion signal before / during / never: first event 'started', 'completed' at most once and never when complete at start, timer never armed sooner than min(tracker's positive interval, effective minimum interval) / retry-in / back-off, HasAnnounced iff an announce was accepted", T(45, 1800, 8, 6), T(45, 1800, 8, 6), replay="model"),
+]
+C["C15"]["assumptions"] += ["timers are model timers fired by the harness; back-off replaced by its contract (>= 2.5 s)", "time.Now is symbolic non-decreasing"]
+
 for pid, spec in C.items():
     spec = dict(property=pid, **spec)
     json.dump(spec, open(os.path.join(D, pid + ".json"), "w"), indent=1)
